@@ -191,6 +191,38 @@ impl CommandBuffer {
     }
 }
 
+#[cfg(hecs_verif)]
+impl CommandBuffer {
+    /// Snapshot of the buffer's arena bookkeeping and recorded command ranges
+    pub fn verif_dump(&self) -> crate::verif::ArenaDump {
+        crate::verif::ArenaDump {
+            base: self.storage.as_ptr() as usize,
+            layout_size: self.layout.size(),
+            layout_align: self.layout.align(),
+            cursor: self.cursor,
+            slots: self
+                .components
+                .iter()
+                .map(|c| (c.ty.id(), c.ty.layout().size(), c.ty.layout().align(), c.offset))
+                .collect(),
+            indices: Vec::new(),
+            cmds: self
+                .cmds
+                .iter()
+                .map(|c| match c {
+                    Cmd::SpawnOrInsert(e) => (
+                        if e.entity.is_some() { 1 } else { 0 },
+                        e.components.start,
+                        e.components.end,
+                    ),
+                    Cmd::Remove(_) => (2, 0, 0),
+                    Cmd::Despawn(_) => (3, 0, 0),
+                })
+                .collect(),
+        }
+    }
+}
+
 unsafe impl Send for CommandBuffer {}
 unsafe impl Sync for CommandBuffer {}
 
